@@ -399,6 +399,7 @@ def finish(ctx: Ctx, level_text_trusted: list[str], rule: str, checker_cmd: str)
             "broken": [b["kind"] + ":" + b["name"] for b in ctx.broken],
             "known_findings_reported": sorted(reported_known),
             "notes": ctx.notes,
+            **{k: v for k, v in ctx.cov.items() if k not in ("evaluations", "samples", "families", "traces_validated_against_impl")},
         },
         "assumptions": ctx.assumptions,
         "wall_s": round(time.time() - ctx.t0, 2),
